@@ -28,7 +28,7 @@ WORLD_ASSUMPTIONS = COMMON_ASSUMPTIONS + [
 ]
 
 
-def world(prop, test, rule, quick=(8, 60), thorough=(16, 1500), **kw):
+def world(prop, test, rule, quick=(12, 150), thorough=(16, 4000), **kw):
     d = {
         "replay_test": "TestWorldReplay",
         "replay_times": 25,
@@ -61,3 +61,38 @@ CHECKS["C09"] = world("C09", "TestC09", HIST + "profile reserve (reservation del
 CHECKS["C10"] = world("C10", "TestC10", HIST + "profile churn-apps; non-trivial = an application that visited at least 4 states")
 CHECKS["C11"] = world("C11", "TestC11", HIST + "profile churn-apps with max-applications on leaf/parent/root, templates and tags; non-trivial = the gate was evaluated for a limit on an ancestor "
     "or at least twice")
+
+
+# ---------------------------------------------------------------------------------------------------
+# what MANIFEST.json says per claimed property (tools/gen_manifest.py)
+
+WORLD_NOTE = ("trusts: the harness (synchronous driver, shim reference model, snapshot through exported getters/REST DAO builders), the verif build-tag hooks in /repo, "
+              "rapid and the Go toolchain; interleavings only at whole-handler / whole-cycle granularity; oracles are validity predicates (never 'the one expected outcome')")
+
+
+def _world_meta(what):
+    return {
+        "level_text": "generated-history search (stateful property-based testing of the real core through a synchronous driver) against " + what +
+                      "; no counterexample in N generated histories, absence is not established",
+        "level_note": WORLD_NOTE,
+        "technique": "stateful property-based testing (rapid state machine over SI requests and scheduling cycles), invariant/reference-model oracle per step, shrunk histories replayed without the library",
+    }
+
+
+META = {
+    "C18": {
+        "level_text": "generated-input search against a math/big reference; no counterexample in N cases, absence not established",
+        "level_note": "trusts the reference model in props/ and the Go toolchain",
+        "technique": "property-based testing (rapid) against a big-integer reference model",
+    },
+    "C01": _world_meta("a per-decision fit/schedulable/reservation/predicate oracle on the pre-step node view and node ledger equalities after every step"),
+    "C02": _world_meta("a per-decision queue-maximum oracle along the queue path and the effective-limit ordering after every step"),
+    "C03": _world_meta("conservation equalities over application, queue, node and partition ledgers after every step and exact zero after a drain epilogue"),
+    "C04": _world_meta("a shim-side reference model that judges the SI traffic only (exactly-once binding, legal releases, one answer per application/node)"),
+    "C05": _world_meta("the limits of the latest accepted configuration and usage = sum of live allocations per user/group and queue"),
+    "C09": _world_meta("equality of the application, node and queue views of the reservation relation and exclusivity rules after every step"),
+    "C10": _world_meta("the documented application life-cycle table applied to shim messages and state log, plus state/ledger agreement"),
+    "C11": _world_meta("the max-applications gate evaluated on the pre-step queue view and counter sanity after every step"),
+}
+
+NOT_APPLICABLE = {}
